@@ -24,7 +24,7 @@ MS == [i  |-> [type |-> "integer", fld |-> "i", cs |-> 1],
 
 VARIABLE pts
 
-Fld(p, v) == [c |-> "x", ix |-> [q \in {p} |-> v], d |-> 0, sz |-> 0]
+Fld(p, v) == [c |-> "x", ix |-> [q \in {p} |-> v], d |-> 0, sz |-> 0, bad |-> 0]
 \* a document from optional values (0 = absent)
 MkDoc(iv, sv, scv) ==
   LET fs == (IF iv = 0 THEN {} ELSE {"i"}) \cup (IF sv = 0 THEN {} ELSE {"s"}) \cup (IF scv = 0 THEN {} ELSE {"sc"})
